@@ -32,7 +32,7 @@ def main():
     ap.add_argument("--wt", default="/tmp/mut_confirm")
     ap.add_argument("--skip-confirm", action="store_true")
     a = ap.parse_args()
-    src = a.src or "/tmp/seed_out/%s/%s" % (a.prop, a.k)
+    src = os.path.abspath(a.src or "/tmp/seed_out/%s/%s" % (a.prop, a.k))
     sid = "%s-%s" % (a.prop, a.k)
     wt = a.wt
     head = subprocess.check_output(["git", "-C", "/repo", "rev-parse", "HEAD"], text=True).strip()
@@ -135,6 +135,8 @@ def main():
         dst = os.path.join(VERIF, "seeded", sid)
         os.makedirs(dst, exist_ok=True)
         for f in os.listdir(src):
+            if os.path.abspath(src) == os.path.abspath(dst):
+                break
             shutil.copy(os.path.join(src, f), os.path.join(dst, f))
         old = {}
         mp = os.path.join(dst, "meta.json")
